@@ -778,6 +778,22 @@ class Dyn(Calls):
                 return z3.And(*[self.truth(self.ev(x)) for x in g.ifs])
             return self.in_state(snap.snapshot(), {}, self.old_state, f, pure_code=True)
         self.add_universal([TInt], lambda i: z3.Implies(z3.And(0 <= i, i < n_, cond(i)), rank[n_] > 0), "filter-nonempty-if-some-pass")
+        # every output element comes from a source element that passes the filter (ghost inverse of the rank; by induction, trusted)
+        srcidx = self.fresh("filtersrc", z3.ArraySort(z3.IntSort(), z3.IntSort()))
+        out_arr, out_n = lst.arr, lst.n
+        ety = lst.ty.e
+
+        def origin(j):
+            p_ = srcidx[j]
+            self.touch(TInt, p_)
+
+            def elem():
+                self.st.env = dict(env0)
+                self.st.env[var] = self.from_term(c.arr[p_], c.ty.e)
+                return self.to_term(self.ev(n.elt), ety)
+            e_ = self.in_state(snap.snapshot(), {}, self.old_state, elem, pure_code=True)
+            return z3.Implies(z3.And(0 <= j, j < out_n), z3.And(0 <= p_, p_ < n_, cond(p_), rank[p_] == j, out_arr[j] == e_))
+        self.add_universal([TInt], origin, "filter-origin")
         w = self.fresh("fw", z3.IntSort())
         self.touch(TInt, w)
         saved = self.pol
@@ -916,6 +932,12 @@ class Dyn(Calls):
         except RX.RegexUnsupported as e:
             raise Unsupported("regular expression: %s" % e)
         return VMatch(matched, groups, enc.names)
+
+    def call_spec_index(self, listspec, f, q):
+        """listspec(f)[q] for a z3 Int term q (helper for spec builtins defined in contract modules)."""
+        lst = self.call_spec(listspec, [f])
+        ln, item = self.seq_ufs()
+        return VObj(item(lst.t, q)) if isinstance(lst, VObj) else self.from_term(self.cont(lst).arr[q], self.cont(lst).ty.e)
 
     def eval_spec_value(self, expr):
         node = self.parse_clause(expr)
@@ -1150,6 +1172,88 @@ class Dyn(Calls):
 
     def ev_SetComp(self, n):
         return self.with_pure_raises(lambda: super(Dyn, self).ev_SetComp(n))
+
+
+
+    # ------------------------------------------------------------------ dict(x), d.copy(), d.update(x), list slices
+    def bi_dict(self, args, kwargs, node):
+        if len(args) == 1 and not kwargs:
+            v = args[0]
+            if isinstance(v, VObj):
+                hit = (self.st.ghost.get("$boxed") or {}).get(z3.simplify(v.t).get_id())
+                if hit is None:
+                    if not self.spec_mode and not self.branch(v.t != PyNone):
+                        raise PyRaise(VExc("TypeError", [VStr("'NoneType' object is not iterable")]))
+                    return self.obj_as_dict(v)
+                v = VCont(hit[1])
+            if isinstance(v, VCont):
+                c = self.cont(v)
+                if isinstance(c, EmptyV):
+                    return self.new_box(EmptyV("dict"))
+                if isinstance(c, DictV):
+                    return self.new_box(c.replace())
+        return super().bi_dict(args, kwargs, node)
+
+    def m_DictV_copy(self, recv, args, kwargs):
+        return self.new_box(self.cont(recv).replace())
+
+    def m_Empty_copy(self, recv, args, kwargs):
+        return self.new_box(EmptyV(self.cont(recv).kind))
+
+    def m_Empty_update(self, recv, args, kwargs):
+        src = args[0]
+        if isinstance(src, VObj):
+            self.materialize(recv, TDict(TStr, TObj()))
+            return self.m_DictV_update(recv, args, kwargs)
+        if isinstance(src, VCont) and isinstance(self.cont(src), EmptyV):
+            return VNone
+        if isinstance(src, VCont):
+            self.set_cont(recv, self.cont(src).replace())
+            return VNone
+        raise Unsupported("update of an empty dict with %r" % (src,))
+
+    def m_DictV_update(self, recv, args, kwargs):
+        """d.update(other): other's entries override d's; all other entries stay."""
+        d = self.cont(recv)
+        src = args[0]
+        if isinstance(src, VObj):
+            hit = (self.st.ghost.get("$boxed") or {}).get(z3.simplify(src.t).get_id())
+            src = VCont(hit[1]) if hit is not None else self.obj_as_dict(src)
+        o = self.cont(src)
+        if isinstance(o, EmptyV):
+            return VNone
+        if not isinstance(o, DictV) or o.ty.k != d.ty.k:
+            raise Unsupported("dict.update with %r" % (o,))
+        has2 = self.fresh("updhas", d.has.sort())
+        val2 = self.fresh("updval", d.val.sort())
+        dh, dv, oh, ov = d.has, d.val, o.has, o.val
+        conv = (lambda t: t) if repr(o.ty.v) == repr(d.ty.v) else None
+        if conv is None:
+            raise Unsupported("dict.update between different value types")
+        self.add_universal([d.ty.k], lambda k: z3.And(has2[k] == z3.Or(dh[k], oh[k]), val2[k] == z3.If(oh[k], ov[k], dv[k])), "dict-update")
+        cnt = self.fresh("updcount", z3.IntSort())
+        self.assume(z3.And(cnt >= d.count, cnt >= o.count, cnt <= d.count + o.count))
+        self.set_cont(recv, DictV(d.ty, has2, val2, cnt, {}, {}))
+        return VNone
+
+    def slice(self, base, sl):
+        if isinstance(base, VObj) and sl.step is None:
+            hit = (self.st.ghost.get("$boxed") or {}).get(z3.simplify(base.t).get_id())
+            base = VCont(hit[1]) if hit is not None else self.obj_as_list(base)
+        if isinstance(base, VCont) and sl.step is None and isinstance(self.cont(base), ListV):
+            c = self.cont(base)
+            lo = self.ev(sl.lower).t if sl.lower is not None else z3.IntVal(0)
+            hi = self.ev(sl.upper).t if sl.upper is not None else c.n
+
+            def norm(t):
+                return z3.If(t < 0, z3.If(t + c.n < 0, 0, t + c.n), z3.If(t > c.n, c.n, t))
+            a, b = norm(lo), norm(hi)
+            n2 = z3.If(b - a < 0, 0, b - a)
+            arr2 = self.fresh("slice", c.arr.sort())
+            old = c.arr
+            self.add_universal([TInt], lambda i: z3.Implies(z3.And(0 <= i, i < n2), arr2[i] == old[i + a]), "list-slice")
+            return self.new_box(ListV(c.ty, arr2, n2))
+        return super().slice(base, sl)
 
 
 def split_tag_effect(text):
